@@ -86,9 +86,9 @@ CLAIMED.update({
         "text": "Escaping half of the VCF round trip decided structurally: the evaluated percent-encode sets (and the character writers' "
                 "matches! patterns) contain the VCF §1.2 reserved bytes and every delimiter constant the column's readers split on; "
                 "a column encoded on write is decoded in every read view (eager, lazy, array iterators: callers of the shared decoder); "
-                "lone '.' escape present; variant span has one provided implementation; every success path of the parser resets each column of a reused "
+                "lone '.' escape present; Character values decoded by every reader that extracts a single character; variant span has one provided implementation; every success path of the parser resets each column of a reused "
                 "RecordBuf (samples tabled as not decided); line buffers are reset before each appended line. Value equality over the grammar is not decided.",
-        "note": "trusts the percent-encoding crate; delimiter harvest is by named constants with a floor",
+        "note": "trusts the percent-encoding crate; delimiter harvest is by named constants with a floor; genuine defects F17 (per-window UTF-8 validation) and F18 (eager Character not decoded) repaired (fix: ee4ec0f, 1c67b13); two seeded changes of value-level kind are documented misses",
         "technique": "static analysis: evaluated AsciiSet constants vs spec table, HIR match-pattern sets, caller sets of encode/decode helpers, trait impl table",
         "design_ref": "§5 C09",
     },
@@ -170,7 +170,7 @@ CLAIMED.update({
         "text": "Four structural necessary conditions of query = scan, explicitly partial: every query loop (8 sync/async instances + CSI "
                 "FilterByRegion) returns a record only on the true edge of its intersects(..)? test; the five indexers build each chunk from a "
                 "position before and a position after the same record read (def-use); one span definition shared by indexer and filter; "
-                "add_record rejects unsorted input; binned-index min_offset is a minimum over several bins; reg2bin (indexer) and reg2bins (query) agree on the coordinate convention (exactly one `- 1` on start/end before the shifts). The heart of C04 — bin assignment, "
+                "add_record rejects unsorted input; unmapped queries filter per record (never by a prefix combinator); binned-index min_offset is a minimum over several bins; reg2bin (indexer) and reg2bins (query) agree on the coordinate convention (exactly one `- 1` on start/end before the shifts). The heart of C04 — bin assignment, "
                 "chunk merging and pruning for every layout x region — is coordinate arithmetic and is NOT decided.",
         "note": "weak claim by design; a genuine completeness defect in the CSI min_offset (found by reading, not by a rule) was repaired (fix: 42bd27d) and R5 pins its necessary condition",
         "technique": "static analysis: edge dominance of the filter test over record-returning exits, def-use ordering of chunk bounds, trait impl table (MIR/HIR)",
@@ -201,7 +201,7 @@ CLAIMED.update({
     "C19": {
         "text": "Narrow claim: CRAM query returns records only behind the reference-id + interval test (sync and async), the container loader "
                 "filters index entries by reference, fs::index dispatches multi-reference slices to per-reference entries and derives the slice "
-                "length from landmarks, crai writer/reader columns. That spans and offsets are true and that query = scan for every layout are NOT decided.",
+                "length from landmarks, crai writer/reader columns, slice span accumulated as (min start, max end). That spans and offsets are true and that query = scan for every layout are NOT decided.",
         "note": "two genuine defects repaired (fix: 393a12a, 473fa0d); known finding F12a (fs::index decodes multi-reference slices with an empty repository) by exact key",
         "technique": "static analysis: edge dominance of the filter over record-returning exits, dispatch reachability, data flow of the repository argument (MIR)",
         "design_ref": "§5 C19",
@@ -210,9 +210,9 @@ CLAIMED.update({
         "text": "Detection/dispatch tables: util magic literals equal the writers' constants (evaluated); reader-builder and writer-builder map "
                 "every (Format, CompressionMethod) key to the same inner variant with a constructor of that format crate and bgzf wrapping iff "
                 "compressed (HIR match-arm tables, alignment+variant, sync+async); detection window assumption (known finding F6); finish reaches "
-                "every arm; default compression; configuration plumbing: every field of every workspace Builder struct is read by a consumer (an option "
+                "every arm and every generic writer has a finishing call dispatching to all arms; default compression; configuration plumbing: every field of every workspace Builder struct is read by a consumer (an option "
                 "stored by a setter cannot be silently ignored). Conversions are NOT decided.",
-        "note": "R2 found a genuine defect (swapped BCF writer arms), repaired (fix: 087a76d); F6 listed by exact keys",
+        "note": "R2 found a genuine defect (swapped BCF writer arms), repaired (fix: 087a76d); the variant writers (sync and async) had no finishing call at all, repaired (fix: 34fcaac, 5e6a7ff; rule R4/no-finisher); F6 listed by exact keys",
         "technique": "static analysis: HIR match-table agreement between sibling builders, evaluated constants, fill_buf window classification",
         "design_ref": "§5 C20",
     },
